@@ -8,14 +8,16 @@ from harness.c10 import RANGES
 
 PROPERTY = "C01"
 LEVEL = "model_checking"
-BOUNDS = {"hours_per_series": "N=2 (thorough 3)", "skeletons": "T1,T2,T3,T4,T5,T7,T8", "inductive_invariant": "after every edit on skeletons without a job shared between usage patterns, the live "
+BOUNDS = {"hours_per_series": "N=2 (thorough 3)", "skeletons": "T1,T2,T3,T4,T5,T7,T8,T9,TX", "inductive_invariant": "after every edit on skeletons without a job shared between usage patterns, the live "
           "system has the same value-level dependency graph (ancestors/children by object name and attribute) as the fresh "
           "build: a history of any length over the edit menu reduces to single steps from fresh-equivalent states",
           "history_depth": "<=3 edits (link there-back-there, two objects leaving a shared target in turn; otherwise 2) "
           "(every edit followed by its inverse; link edit followed by numeric edit; seeded sample of other pairs)",
           "edit_menu": "numeric assignment per class/parameter, starts replacement (values/length/start date), "
           "timezone, server_type, fixed_nb_of_instances set/unset, link re-pointing, list assignment and mutators, "
-          "grouped ModelingUpdate"}
+          "grouped ModelingUpdate, lists re-assigned with the same members (order / multiplicity)",
+          "mixed_histories": "T9: 9 histories of 3-4 steps interleaving accepted edits with dated simulations (set/reset) and edits "
+                             "whose recomputation raises; values and graph compared with the fresh build after every step"}
 ASSUMPTIONS = ["a fixed instance count of exactly 0 is not assigned (the model reads 0 and 'no value' as equal and skips it)",
                "claims concern accepted edits: a path on which the live edit raises ends there (C14/C15 cover those)",
                "numeric new values differ from the old ones except in the dedicated no-op scripts",
@@ -42,6 +44,8 @@ def collect_slots(spec, script, acc=None):
             acc[f"{e['obj']}.{e['param']}"] = _sym_for(spec, e["obj"], e["param"])
         elif e["k"] == "group":
             collect_slots(spec, e["edits"], acc)
+        elif e["k"] == "sim":
+            collect_slots(spec, e["script"], acc)
     return acc
 
 
@@ -187,6 +191,14 @@ def h_script(ctx, skeleton, script, n=2, args=None, extra_sym=None, graph=False)
     V.observe_system(ctx, live, "0.")
     for i, je in enumerate(script):
         before = totals_snapshot(system)
+        if je["k"] in ("sim", "fail"):
+            # interleaved non-edits: a dated what-if simulation switched on and off again, or an edit whose recomputation
+            # raises (the model is put back): the live system must still equal the fresh build of the *same* inputs,
+            # and so must it after the accepted edits that follow
+            _non_edit(ctx, live, spec, env0, env, je, i)
+            lab = f"after step {i + 1} ({je['k']})"
+            compare_live_fresh(ctx, live, spec, env, lab, graph=graph)
+            continue
         e = resolve(ctx, env0, env, spec, je, i)
         spec, env = E.apply(live, spec, env, e)
         lab = f"after edit {i + 1} ({je['k']})"
@@ -199,6 +211,38 @@ def h_script(ctx, skeleton, script, n=2, args=None, extra_sym=None, graph=False)
             check_reference(ctx, system, before, "previous", lab)
         check_reference(ctx, system, initial, "initial", lab)
         V.observe_system(ctx, live, f"{i + 1}.")
+
+
+def _non_edit(ctx, live, spec, env0, env, je, i):
+    from datetime import timedelta
+    from efootprint.abstract_modeling_classes.modeling_update import ModelingUpdate
+    from efootprint.abstract_modeling_classes.source_objects import SourceValue
+    from efootprint.constants.units import u
+    if je["k"] == "sim":
+        changes = []
+        for k, sub in enumerate(je["script"]):
+            e = resolve(ctx, env0, env, spec, sub, 100 * (i + 1) + k)
+            o, a = E.attr_of(e)
+            changes.append([getattr(live[o], a), E.new_value(env, spec, e)(live)])
+        first = min(V.utc_key(ts) for p in gt_sets(spec)["patterns"] for ts in live[p].utc_hourly_usage_journey_starts.value.index)
+        try:
+            sim = ModelingUpdate(changes, (first + timedelta(hours=je.get("hour", 1))).to_pydatetime())
+        except ValueError:
+            ctx.count("simulation_refused")
+            return
+        for t in je.get("toggles", ["set", "reset"]):
+            (sim.set_updated_values if t == "set" else sim.reset_values)()
+        ctx.count("simulation_toggled")
+    else:
+        d, un = E.param_info(spec, je["obj"], je["param"])
+        try:
+            setattr(live[je["obj"]], je["param"], SourceValue(je["value"] * u(env.unit_of(f"{je['obj']}.{je['param']}", un))))
+        except Exception as err:  # noqa
+            if type(err).__name__ in ("PathAbort", "EngineError"):
+                raise
+            ctx.count("failed_edit")
+            return
+        ctx.require(False, f"step {i + 1}: the edit {je['obj']}.{je['param']} = {je['value']} was meant to fail", "it was accepted")
 
 
 HARNESSES = {"script": h_script}
@@ -366,12 +410,25 @@ def plan(tier, seed):
                ("script", dict(skeleton="T4", script=[LA_("step1", "jobs", ["jobA"]), LA_("step1", "jobs", ["jobA", "jobA"])])),
                ("script", dict(skeleton="T4", script=[LA_("uj", "uj_steps", ["step1", "step2", "step3", "step1"]), LA_("uj", "uj_steps", ["step1", "step2", "step3"])])),
                ("script", dict(skeleton="T1", script=[LA_("up", "devices", ["dev", "dev"]), LA_("up", "devices", ["dev"])]))]
+    # mixed histories on T9: accepted edits interleaved with simulations (set/reset) and failing edits
+    SIM = lambda *sc, **kw: dict(k="sim", script=list(sc), **kw)  # noqa
+    FAIL = lambda o, q, v: dict(k="fail", obj=o, param=q, value=v)  # noqa
+    mixed = [[SIM(num("job", "data_transferred")), num("job", "data_transferred"), num("srv", "ram")],
+             [FAIL("srv", "base_ram_consumption", 10 ** 6), num("job", "ram_needed"), num("srv", "server_utilization_rate")],
+             [SIM(L_("job", "server", "srv_alt")), num("srv", "ram"), L_("job", "server", "srv_alt")],
+             [L_("up", "network", "net_alt"), SIM(L_("up", "network", "net")), num("net_alt", "bandwidth_energy_intensity")],
+             [FAIL("job", "request_duration", 0), num("job", "request_duration"), num("job", "data_stored")],
+             [num("job2", "ram_needed"), FAIL("srv", "base_compute_consumption", 10 ** 6), FAIL("srv", "base_ram_consumption", 10 ** 6), num("job2", "compute_needed")],
+             [SIM(dict(k="list_assign", obj="step", attr="jobs", names=["job", "job_alt"]), hour=0), dict(k="list_op", obj="step", attr="jobs", op="append", args=["job_alt"]), num("job_alt", "data_transferred")],
+             [SIM(num("dev", "power"), toggles=["set", "reset", "set", "reset"]), FAIL("st", "storage_capacity", 10 ** -12) if False else num("dev", "power"), num("fr", "average_carbon_intensity")],
+             [FAIL("srv", "base_ram_consumption", 10 ** 6), SIM(num("srv", "ram")), num("srv", "base_ram_consumption")]]
+    mixed = [("script", dict(skeleton="T9", script=h_)) for h_ in mixed]
     if tier == "quick":
         rnd.shuffle(shared)
-        p += tx + reorder
+        p += tx + reorder + mixed
         p += shared[:14] + links9 + follow9 + histories + links[:8] + follow[:3] + groups + fixed
     else:
-        p += tx + reorder + shared + links9 + follow9 + histories + links + follow + groups + fixed
+        p += tx + reorder + mixed + shared + links9 + follow9 + histories + links + follow + groups + fixed
         # all ordered pairs of single numeric edits on T1 touching different objects: seeded sample of 60
         singles = [e for e, inv in single_edits("T1") if e["k"] == "num"]
         pairs = [(a, b) for a in singles for b in singles if a["obj"] != b["obj"]]
